@@ -1,70 +1,193 @@
+// Harness for C12 (atomic writes, on_duplicate / on_missing): random write histories over an 8-key tuple universe
+// against the real memory and sqlite datastores (directly and through commands.WriteCommand), sqlite statement /
+// connection failures injected at every driver-level operation through a wrapping database/sql driver, and real
+// process crashes at every statement boundary (child process killed, database file re-read by the parent).
+//
+// case lines
+//
+//	H <backend> <op>...     backend = mem | sql | cmdmem | cmdsql
+//	F <mode> <op>...        sqlite; before every op the write is attempted with operation k failing, for every k
+//	                        (mode b = statement fails before it runs, a = after it ran, c = the connection dies)
+//	X <op>...               sqlite; like F but a child process is killed right before operation k
+//	op = w;<on_missing>;<on_duplicate>;<deletes>;<writes>
+//
+// output, one group per op separated by a space:
+//
+//	H:  <result>;<tuples>;<changelog>
+//	F:  <trace>;<k-results>;<result>;<tuples>;<changelog>     k-result = <error class>:<same|CHANGED>
+//	X:  <k-results>;<result>;<tuples>;<changelog>             k-result = same|CHANGED
 package main
 
 import (
-	"context"
 	"fmt"
 	"os"
-	"path/filepath"
-	"time"
+	"os/exec"
+	"strconv"
+	"strings"
 
-	openfgav1 "github.com/openfga/api/proto/openfga/v1"
-	"github.com/pressly/goose/v3"
-	"google.golang.org/protobuf/types/known/structpb"
-
-	"github.com/openfga/openfga/assets"
-	"github.com/openfga/openfga/pkg/storage"
-	"github.com/openfga/openfga/pkg/storage/memory"
-	"github.com/openfga/openfga/pkg/storage/sqlcommon"
-	"github.com/openfga/openfga/pkg/storage/sqlite"
+	"github.com/openfga/openfga/verifharness/hx"
+	"github.com/openfga/openfga/verifharness/storew"
 )
 
-func main() {
-	t0 := time.Now()
-	dir, _ := os.MkdirTemp("", "verif-c12-*")
-	defer os.RemoveAll(dir)
-	path := filepath.Join(dir, "db.sqlite")
-	uri := fmt.Sprintf("file:%s?_pragma=journal_mode(WAL)&_pragma=busy_timeout(5000)&_pragma=synchronous(NORMAL)", path)
-	goose.SetLogger(goose.NopLogger())
-	goose.SetBaseFS(assets.EmbedMigrations)
-	db, err := goose.OpenDBWithDriver("sqlite", uri)
-	if err != nil {
-		panic(err)
+func genOps(c *hx.Rand, n int, cmd, odd bool) string {
+	ops := make([]string, 0, n)
+	g := storew.NewGenState()
+	for i := 0; i < n; i++ {
+		ops = append(ops, storew.GenOp(c, cmd, odd, g).String())
 	}
-	if err := goose.Up(db, assets.SqliteMigrationDir); err != nil {
-		panic(err)
+	return strings.Join(ops, " ")
+}
+
+func gen(r *hx.Rand, n int, tier string, emit func(string), st *hx.Stats) {
+	maxOps := 10
+	if tier == "thorough" {
+		maxOps = 20
 	}
-	db.Close()
-	fmt.Println("migrated in", time.Since(t0))
-	ds, err := sqlite.New(uri, sqlcommon.NewConfig())
-	if err != nil {
-		panic(err)
-	}
-	defer ds.Close()
-	mem := memory.New()
-	ctx := context.Background()
-	for name, d := range map[string]storage.OpenFGADatastore{"sqlite": ds, "memory": mem} {
-		for _, c := range []struct {
-			n      string
-			c1, c2 *structpb.Struct
-		}{{"nil,nil", nil, nil}, {"nil,{}", nil, &structpb.Struct{}}, {"{},nil", &structpb.Struct{}, nil}, {"{},{}", &structpb.Struct{}, &structpb.Struct{}}} {
-			st := "store-" + c.n
-			tk := &openfgav1.TupleKey{Object: "doc:1", Relation: "viewer", User: "user:a", Condition: &openfgav1.RelationshipCondition{Name: "c1", Context: c.c1}}
-			tk2 := &openfgav1.TupleKey{Object: "doc:1", Relation: "viewer", User: "user:a", Condition: &openfgav1.RelationshipCondition{Name: "c1", Context: c.c2}}
-			e1 := d.Write(ctx, st, nil, []*openfgav1.TupleKey{tk})
-			e2 := d.Write(ctx, st, nil, []*openfgav1.TupleKey{tk2}, storage.WithOnDuplicateInsert(storage.OnDuplicateInsertIgnore))
-			fmt.Println(name, c.n, "first:", e1, "second:", e2)
+	for i := 0; i < n; i++ {
+		c := r.Fork()
+		odd := c.Chance(1, 3)
+		k := c.Intn(100)
+		switch {
+		case k < 24:
+			st.Inc("hist-mem")
+			emit("H mem " + genOps(c, 2+c.Intn(maxOps), false, odd))
+		case k < 48:
+			st.Inc("hist-sql")
+			emit("H sql " + genOps(c, 2+c.Intn(maxOps), false, odd))
+		case k < 58:
+			st.Inc("hist-cmdmem")
+			emit("H cmdmem " + genOps(c, 2+c.Intn(maxOps), true, odd))
+		case k < 66:
+			st.Inc("hist-cmdsql")
+			emit("H cmdsql " + genOps(c, 2+c.Intn(maxOps), true, odd))
+		case k < 96:
+			mode := hx.Pick(c, []string{"b", "a", "c"})
+			st.Inc("inject-" + mode)
+			emit("F " + mode + " " + genOps(c, 2+c.Intn(6), false, odd))
+		default:
+			st.Inc("crash")
+			emit("X " + genOps(c, 1+c.Intn(4), false, false))
 		}
-		// delete with empty object id
-		st := "store-del"
-		_ = d.Write(ctx, st, nil, []*openfgav1.TupleKey{{Object: "doc:1", Relation: "viewer", User: "user:a"}, {Object: "doc:2", Relation: "viewer", User: "user:a"}})
-		e := d.Write(ctx, st, []*openfgav1.TupleKeyWithoutCondition{{Object: "doc:", Relation: "viewer", User: "user:a"}}, nil)
-		ch, _, _ := d.ReadChanges(ctx, st, storage.ReadChangesFilter{}, storage.ReadChangesOptions{})
-		fmt.Println(name, "delete doc: ->", e, "changes:", len(ch))
-		// in-request duplicates
-		st = "store-dup"
-		e = d.Write(ctx, st, nil, []*openfgav1.TupleKey{{Object: "doc:1", Relation: "viewer", User: "user:a"}, {Object: "doc:1", Relation: "viewer", User: "user:a"}})
-		ch, _, _ = d.ReadChanges(ctx, st, storage.ReadChangesFilter{}, storage.ReadChangesOptions{})
-		fmt.Println(name, "dup in request ->", e, "changes:", len(ch))
 	}
-	fmt.Println("total", time.Since(t0))
+}
+
+func exec1(line string, st *hx.Stats) string {
+	f := strings.Fields(line)
+	switch f[0] {
+	case "H":
+		s := storew.NewSession(f[1])
+		var outs []string
+		for _, tok := range f[2:] {
+			res := s.Write(storew.ParseOp(tok))
+			outs = append(outs, res+";"+s.State())
+		}
+		return strings.Join(outs, " ")
+	case "F":
+		mode := f[1]
+		s := storew.NewSession("sql")
+		ctl := s.E.Ctl
+		var outs []string
+		for _, tok := range f[2:] {
+			op := storew.ParseOp(tok)
+			pre := s.State()
+			var ks []string
+			var res string
+			var trace []string
+			k0 := 0
+			if mode == "c" {
+				k0 = 1 // database/sql transparently retries a BEGIN that hits a dead connection
+			}
+			for k := k0; ; k++ {
+				if k > 40 {
+					return "RUNAWAY"
+				}
+				ctl.Arm(k, mode)
+				res = s.Write(op)
+				var fired bool
+				trace, fired = ctl.Disarm()
+				if !fired || res == "ok" {
+					// not reached, or the write went through (applied): this is the final outcome
+					break
+				}
+				st.Inc("injected-failures")
+				post := s.State()
+				if post == pre {
+					ks = append(ks, res+":same")
+				} else {
+					ks = append(ks, res+":CHANGED")
+				}
+			}
+			kk := "_"
+			if len(ks) > 0 {
+				kk = strings.Join(ks, ",")
+			}
+			outs = append(outs, strings.Join(trace, ".")+";"+kk+";"+res+";"+s.State())
+		}
+		return strings.Join(outs, " ")
+	case "X":
+		s := storew.NewSession("sql")
+		var outs []string
+		for _, tok := range f[1:] {
+			pre := s.State()
+			var ks []string
+			res := ""
+			for k := 1; ; k++ {
+				if k > 40 {
+					return "RUNAWAY"
+				}
+				cmd := exec.Command(os.Args[0], "crashchild", s.E.DBPath, s.Store, strconv.Itoa(k), tok)
+				out, err := cmd.Output()
+				if err == nil {
+					res = strings.TrimSpace(string(out))
+					break
+				}
+				if ee, ok := err.(*exec.ExitError); ok && ee.ExitCode() == 3 {
+					st.Inc("crashes")
+					if s.State() == pre {
+						ks = append(ks, "same")
+					} else {
+						ks = append(ks, "CHANGED")
+					}
+					continue
+				}
+				return "CHILDERR:" + strings.ReplaceAll(err.Error(), " ", "_")
+			}
+			kk := "_"
+			if len(ks) > 0 {
+				kk = strings.Join(ks, ",")
+			}
+			outs = append(outs, kk+";"+res+";"+s.State())
+		}
+		return strings.Join(outs, " ")
+	}
+	return "badcase"
+}
+
+// crashchild <dbpath> <store> <k> <op>: run one write on the database file; the process exits with status 3 right
+// before driver operation k (statement or COMMIT) — nothing is rolled back, closed or flushed by the process.
+func crashChild(args []string) {
+	if len(args) != 4 {
+		os.Exit(2)
+	}
+	k, _ := strconv.Atoi(args[2])
+	ctl := &storew.Ctl{FailAt: -1}
+	ds, err := storew.OpenSQLite(args[0], ctl)
+	if err != nil {
+		fmt.Fprintln(os.Stderr, err)
+		os.Exit(2)
+	}
+	s := &storew.Session{Backend: "sql", DS: ds, Store: args[1]}
+	ctl.Arm(k, "x")
+	res := s.Write(storew.ParseOp(args[3]))
+	fmt.Println(res)
+	os.Exit(0) // no Close: the parent re-reads the file
+}
+
+func main() {
+	if len(os.Args) > 1 && os.Args[1] == "crashchild" {
+		crashChild(os.Args[2:])
+		return
+	}
+	defer storew.Cleanup()
+	hx.Main(hx.Harness{Gen: gen, Exec: exec1})
 }
